@@ -36,6 +36,9 @@ type srvStep struct {
 type srvScenario struct {
 	Name       string    `json:"name"`
 	Steps      []srvStep `json:"steps"`
+	// Paced: the client reads a reply only when the scenario says so (await_reply / must_reply); until then the
+	// server's writer stays blocked in its write, as with a slow reader (the model's wr.write step is the read)
+	Paced      bool      `json:"paced,omitempty"`
 	BlockWrite int       `json:"block_write,omitempty"` // index (1-based) of the reply write that parks until the write fault
 	Repeat     int       `json:"repeat,omitempty"`
 }
@@ -374,9 +377,27 @@ func runSrvScenario(sc srvScenario, scn int, res *hx.Result) []srvEvent {
 
 	// reply reader
 	readerDone := make(chan struct{})
+	readTok := make(chan struct{}, 4096)
+	freeRun := make(chan struct{})
+	var freeOnce sync.Once
+	goFree := func() { freeOnce.Do(func() { close(freeRun) }) }
+	tokens := 0
+	allowReplies := func(k int) {
+		for tokens < k {
+			tokens++
+			readTok <- struct{}{}
+		}
+	}
+	if !sc.Paced {
+		goFree()
+	}
 	go func() {
 		defer close(readerDone)
 		for {
+			select {
+			case <-readTok:
+			case <-freeRun:
+			}
 			fc := new(p9p.Fcall)
 			if err := ch.ReadFcall(cctx, fc); err != nil {
 				return
@@ -411,6 +432,7 @@ func runSrvScenario(sc srvScenario, scn int, res *hx.Result) []srvEvent {
 		r.log(srvEvent{E: "fault", Kind: kind})
 		r.mu.Unlock()
 		faulted = true
+		goFree()
 		close(r.faultCh)
 		switch kind {
 		case "read-eof":
@@ -513,6 +535,7 @@ func runSrvScenario(sc srvScenario, scn int, res *hx.Result) []srvEvent {
 			}
 			r.mu.Unlock()
 		case "await_reply":
+			allowReplies(st.K)
 			r.mu.Lock()
 			if !r.waitFor(await, func() bool { return r.nreply >= st.K }) {
 				res.Add("awaits_timed_out", 1)
@@ -521,6 +544,7 @@ func runSrvScenario(sc srvScenario, scn int, res *hx.Result) []srvEvent {
 		case "must_reply":
 			// K replies must have arrived within 4 s although other handlers are still held: a reply the server owes
 			// (to a flush, to a quick request) may not wait for unrelated handlers to finish
+			allowReplies(st.K)
 			r.mu.Lock()
 			okr := r.waitFor(4*time.Second, func() bool { return r.nreply >= st.K })
 			got := r.nreply
@@ -542,6 +566,7 @@ func runSrvScenario(sc srvScenario, scn int, res *hx.Result) []srvEvent {
 		}
 	}
 
+	goFree()
 	if !faulted {
 		// quiescence: release everything, wait until nothing is outstanding in the client's view
 		r.mu.Lock()
